@@ -3,7 +3,8 @@
 Case lines (integers in decimal, a string is a length-prefixed list of signed char codes):
   to_chars <ty> <base> <len> <value>        class, ptr-first, written characters        (ref: std::to_chars)
   to_chars_buf <ty> <base> <len> <value>    the same with the whole buffer (model tie only)
-  from_integer <ty> <term> <base> <len> <value>   etl API: error, end, whole buffer      (model tie only)
+  from_integer <ty> <term> <base> <len> <value>   etl API: error class, written text + terminator (spec: to_text)
+  from_integer_buf <ty> <term> <base> <len> <value>   the same with end and the whole buffer (model tie only)
   to_string <ty> <cap> <value>              characters + terminator | contract           (ref: std::to_string)
   from_chars[_ovf] <ty> <base> <str>        class, ptr-first, value left in the out arg  (ref: std::from_chars)
   roundtrip <ty> <base> <value>             from_chars(to_chars(v))                      (ref: v)
@@ -304,6 +305,7 @@ def gen(tier, rng):
                 for ln in range(0, n + 3):
                     for term in (0, 1):
                         out.append(f"from_integer {ty} {term} {b} {ln} {v}")
+                        out.append(f"from_integer_buf {ty} {term} {b} {ln} {v}")
     # ---- to_string
     caps = [1, 2, 3, 4, 5, 9, 10, 11, 12, 19, 20, 21, 24]
     for ty in ("i", "l", "ll", "u", "ul", "ull"):
